@@ -150,6 +150,52 @@ def position_problems(exc, text, start):
     return out
 
 
+_HDR = {'if': re.compile(r'^if\s.*:$'), 'while': re.compile(r'^while\s.*:$'), 'for': re.compile(r'^for\s.*:$')}
+_FUNC_HDR = re.compile(r'^(?:async\s+)?function\s.*:$')
+
+
+def expected_open_block(text):
+    """Own block-stack reading of a text whose lines are all well-formed statements: the construct a "Missing end..." diagnostic has to
+    name is the INNERMOST block still open where the shortage is detected (the `endfunction` that finds a block of its function open,
+    or the end of the text). Returns (kind, index of the header's first physical line), 'none' when every block is closed, or None when
+    the text goes wrong in another way first (a closer without its opener, a nested function ...)."""
+    lines, pending, _ = logical_lines(text)
+    if pending is not None:
+        return None
+    stack = []
+    func = None
+    for ix in sorted(lines):
+        ln = lines[ix].strip()
+        floor = func[1] if func is not None else 0
+        if _FUNC_HDR.match(ln):
+            if func is not None:
+                return None
+            func = (ix, len(stack))
+        elif ln == 'endfunction':
+            if func is None:
+                return None
+            if len(stack) > func[1]:
+                return stack[-1]
+            func = None
+        elif ln in ('endif', 'endwhile', 'endfor'):
+            if len(stack) <= floor or stack[-1][0] != ln[3:]:
+                return None
+            stack.pop()
+        elif re.match(r'^(elif\s.*:|else\s*:)$', ln):
+            if len(stack) <= floor or stack[-1][0] != 'if':
+                return None
+        else:
+            for kind, rx in _HDR.items():
+                if rx.match(ln):
+                    stack.append((kind, ix))
+                    break
+    if stack:
+        return stack[-1]
+    if func is not None:
+        return ('function', func[0])
+    return 'none'
+
+
 def fields(exc):
     # the message is compared without its header line (which carries the line number in a wording that is not pinned)
     return (exc.error, exc.line, exc.column_number, exc.line_number, '\n'.join(str(exc).split('\n')[-3:]))
@@ -211,6 +257,15 @@ def check_text(text, acc, api, start=1, must_reject=False, reject_or_account=Fal
         for p in position_problems(exc, text, start):
             acc.violation('diagnostic-position', f'{p}\nerror={exc.error!r} line_number={exc.line_number} column={exc.column_number} line={exc.line!r:.300}\ntext={text!r:.600}', case)
             return exc
+        if kind in ('closer-deleted', 'deep-nest', 'open-function', 'cross-boundary') and exc.error.startswith('Missing end'):
+            # which construct is the offending one: the innermost block still open where the shortage is detected
+            want_blk = expected_open_block(text)
+            if want_blk is not None:
+                acc.count('open_block_oracle_checks')
+                if want_blk == 'none' or (exc.error, exc.line_number) != (f'Missing end{want_blk[0]} statement', start + want_blk[1]):
+                    acc.violation('diagnostic-names-the-wrong-block', f'{exc.error!r} at line {exc.line_number} ({exc.line!r:.100}); the innermost open block is '
+                                  f'{want_blk if want_blk == "none" else (want_blk[0], start + want_blk[1])!r}\ntext={text!r:.800}', case)
+                    return exc
         if expect_col is not None:
             lo, hi, lineno = expect_col
             if exc.line_number == lineno and not lo <= exc.column_number <= hi:
